@@ -456,6 +456,11 @@ def boundary_sweep(k, glen_lit=1, dist_sym=28, len_sym=23, boundary_bytes=4096, 
     bw.put(0, 1)            # sub-image: no colour cache
     if glen_lit == 1:
         g = {0: 1, 1: 2, 256 + len_sym: 2}
+    elif glen_lit == 15:
+        # a DEEP green code: literal 0 still costs one bit, the length symbol has the longest code there is (15 bits)
+        g = {i: i + 1 for i in range(14)}
+        g[14] = 15
+        g[256 + len_sym] = 15
     else:
         g = {0: 2, 1: 2, 2: 2, 256 + len_sym: 2}
     lens = [0] * 280
